@@ -1,8 +1,6 @@
-// Package e2 is engine E2 (histmc): every bounded binlog history is pushed
-// through the real, uninstrumented Stream over a native in-memory connection
-// served by the simulated master, and every delivery is compared with the
-// reference model.
-package e2
+// Package nmem is a native (mutex + condition variable) in-memory duplex
+// connection implementing net.Conn, used by the free-running harnesses.
+package nmem
 
 import (
 	"errors"
@@ -23,6 +21,7 @@ type pipe struct {
 	reset   bool
 	waiting bool // a reader is blocked on an empty pipe
 	read    int64
+	written int64
 }
 
 func newPipe() *pipe {
@@ -31,8 +30,8 @@ func newPipe() *pipe {
 	return p
 }
 
-// conn is one end of a native duplex in-memory connection.
-type conn struct {
+// Conn is one end of a native duplex in-memory connection.
+type Conn struct {
 	in, out *pipe
 	mu      sync.Mutex
 	closed  bool
@@ -50,14 +49,15 @@ func (e *opErr) Unwrap() error   { return e.err }
 func (e *opErr) Timeout() bool   { return false }
 func (e *opErr) Temporary() bool { return false }
 
-func pair() (client, server *conn) {
+// Pair returns the two ends of a new connection.
+func Pair() (client, server *Conn) {
 	a, b := newPipe(), newPipe()
-	return &conn{in: b, out: a}, &conn{in: a, out: b}
+	return &Conn{in: b, out: a}, &Conn{in: a, out: b}
 }
 
-func (c *conn) isClosed() bool { c.mu.Lock(); defer c.mu.Unlock(); return c.closed }
+func (c *Conn) IsClosed() bool { c.mu.Lock(); defer c.mu.Unlock(); return c.closed }
 
-func (c *conn) Read(b []byte) (int, error) {
+func (c *Conn) Read(b []byte) (int, error) {
 	p := c.in
 	p.mu.Lock()
 	defer p.mu.Unlock()
@@ -81,8 +81,8 @@ func (c *conn) Read(b []byte) (int, error) {
 	return n, nil
 }
 
-func (c *conn) Write(b []byte) (int, error) {
-	if c.isClosed() {
+func (c *Conn) Write(b []byte) (int, error) {
+	if c.IsClosed() {
 		return 0, &opErr{"write", errClosed}
 	}
 	p := c.out
@@ -92,11 +92,12 @@ func (c *conn) Write(b []byte) (int, error) {
 		return 0, &opErr{"write", syscall.EPIPE}
 	}
 	p.buf = append(p.buf, b...)
+	p.written += int64(len(b))
 	p.cond.Broadcast()
 	return len(b), nil
 }
 
-func (c *conn) Close() error {
+func (c *Conn) Close() error {
 	c.mu.Lock()
 	if c.closed {
 		c.mu.Unlock()
@@ -116,7 +117,7 @@ func (c *conn) Close() error {
 }
 
 // Reset is an abortive close.
-func (c *conn) Reset() {
+func (c *Conn) Reset() {
 	c.mu.Lock()
 	c.closed = true
 	c.mu.Unlock()
@@ -131,10 +132,10 @@ func (c *conn) Reset() {
 	c.in.mu.Unlock()
 }
 
-// waitPeerIdle blocks until the peer is blocked reading an empty pipe (it has
+// WaitPeerIdle blocks until the peer is blocked reading an empty pipe (it has
 // consumed everything this end wrote) or has gone away. It is the native
 // realisation of lock-step pacing.
-func (c *conn) waitPeerIdle() {
+func (c *Conn) WaitPeerIdle() {
 	p := c.out
 	p.mu.Lock()
 	for !(p.waiting && len(p.buf) == 0) && !p.rclosed && !p.reset {
@@ -148,8 +149,17 @@ type addr struct{}
 func (addr) Network() string { return "nmem" }
 func (addr) String() string  { return "nmem" }
 
-func (c *conn) LocalAddr() net.Addr                { return addr{} }
-func (c *conn) RemoteAddr() net.Addr               { return addr{} }
-func (c *conn) SetDeadline(t time.Time) error      { return nil }
-func (c *conn) SetReadDeadline(t time.Time) error  { return nil }
-func (c *conn) SetWriteDeadline(t time.Time) error { return nil }
+func (c *Conn) LocalAddr() net.Addr                { return addr{} }
+func (c *Conn) RemoteAddr() net.Addr               { return addr{} }
+func (c *Conn) SetDeadline(t time.Time) error      { return nil }
+func (c *Conn) SetReadDeadline(t time.Time) error  { return nil }
+func (c *Conn) SetWriteDeadline(t time.Time) error { return nil }
+
+// BytesRead is the number of bytes this end has consumed.
+func (c *Conn) BytesRead() int64 { c.in.mu.Lock(); defer c.in.mu.Unlock(); return c.in.read }
+
+// BytesWritten is the number of bytes this end has written so far.
+func (c *Conn) BytesWritten() int64 { c.out.mu.Lock(); defer c.out.mu.Unlock(); return c.out.written }
+
+// Pending is the number of bytes written by the peer and not yet read.
+func (c *Conn) Pending() int { c.in.mu.Lock(); defer c.in.mu.Unlock(); return len(c.in.buf) }
